@@ -129,7 +129,9 @@ class Sort(Reordering):
                     f"{set(self.columns_required - current.target.columns)}",
                 ),
             )
-        if current.operation.is_order_dependent:
+        if current.operation.is_order_dependent or isinstance(current.operation, Reordering):
+            # Sorting is stable, so rows with equal keys keep the order an
+            # upstream reordering gave them: two reorderings do not commute.
             return UnaryCommutator(
                 first=None,
                 second=current.operation,
